@@ -21,11 +21,34 @@ def Idx(b: "ProvBundle") -> "bool":
 
 
 @spec
+def RecordsAllocated(b: "ProvBundle") -> "bool":
+    return forall(lambda r: implies(seq_has(b._records, r), allocated(r) and IdOK(r) and r._bundle is not None and r._bundle == b), "ProvRecord")
+
+
+@spec
+def RecordsAttrsWF(b: "ProvBundle") -> "bool":
+    return forall(lambda r: implies(seq_has(b._records, r), AttrsWF(r)), "ProvRecord")
+
+
+@spec
+def RecordsFormalSingle(b: "ProvBundle") -> "bool":
+    return forall(lambda r: implies(seq_has(b._records, r), FormalSingle(r)), "ProvRecord")
+
+
+@spec
+def RecordsStoredOK(b: "ProvBundle") -> "bool":
+    return forall(lambda r: implies(seq_has(b._records, r), AllStoredOK(r)), "ProvRecord")
+
+
+@spec
+def RecordsKeysOK(b: "ProvBundle") -> "bool":
+    return forall(lambda r: implies(seq_has(b._records, r), KeysOK(r)), "ProvRecord")
+
+
+@spec
 def RecordsOK(b: "ProvBundle") -> "bool":
     """every listed record is an allocated ProvRecord in normal form that belongs to this bundle"""
-    return forall(lambda r: implies(seq_has(b._records, r),
-                                    allocated(r) and NF(r) and IdOK(r) and r._bundle is not None and r._bundle == b),
-                  "ProvRecord")
+    return RecordsAllocated(b) and RecordsAttrsWF(b) and RecordsFormalSingle(b) and RecordsStoredOK(b) and RecordsKeysOK(b)
 
 
 @spec
@@ -60,8 +83,7 @@ def get_records_by_class(self: "ProvBundle", class_or_type_or_tuple: "cls") -> "
 def get_record(self: "ProvBundle", identifier: "Val") -> "Opt[Seq[ProvRecord]]":
     requires("index", Idx(self))
     requires("namespaces", NSM_Inv(self._namespaces))
-    requires("identifier-kinds", not is_other(identifier) and implies(is_qn(identifier), QNameOK(as_qn(identifier)))
-             and implies(is_ident(identifier), contains(as_ident(identifier).uri, ":")) and WellFormedText(identifier))
+    requires("identifier-kinds", IdArgOK(identifier))
     modifies(self._namespaces, "<dict>", "_namespaces", "_uri_map", "_rename_map", "_prefix_renamed_map", "_default")
     modifies(self._namespaces.parent, "<dict>", "_namespaces", "_uri_map", "_rename_map", "_prefix_renamed_map", "_default")
     ensures("none-for-none", implies(is_none(identifier), result is None))
@@ -83,7 +105,7 @@ def get_record(self: "ProvBundle", identifier: "Val") -> "Opt[Seq[ProvRecord]]":
 @spec
 def IdArgOK(identifier: "Val") -> "bool":
     return (not is_other(identifier) and implies(is_qn(identifier), QNameOK(as_qn(identifier)))
-            and implies(is_ident(identifier), contains(as_ident(identifier).uri, ":")) and WellFormedText(identifier))
+            and implies(is_ident(identifier), contains(as_ident(identifier).uri, ":")))
 
 
 @contract("prov.model.ProvBundle.new_record", props=["C05", "C09", "C18"])
@@ -111,8 +133,107 @@ def new_record(self: "ProvBundle", record_type: "QN", identifier: "Val",
     ensures("anonymous", implies(is_none(identifier), result._identifier is None))
     ensures("nf", NF(result) and IdOK(result))
     ensures("index", Idx(self))
-    ensures("records-ok", RecordsOK(self))
+    ensures("records-allocated", RecordsAllocated(self))
+    ensures("records-attrs-wf", RecordsAttrsWF(self))
+    ensures("records-formal-single", RecordsFormalSingle(self))
+    ensures("records-stored-ok", RecordsStoredOK(self))
+    ensures("records-keys-ok", RecordsKeysOK(self))
     ensures("namespaces-inv", NSM_Inv(self._namespaces))
+    ensures("given-are-stored", StoredFrom(result, attributes, other_attributes))
+    ensures("only-given-are-stored", implies(AllNormalOpt(attributes) and AllNormalOpt(other_attributes),
+                                             OnlyFrom(result, attributes, other_attributes)))
+    ensures("existing-records-untouched", forall(lambda r: implies(old(allocated(r)), same(r._attributes, old(r._attributes))
+                                                                   and same(r._identifier, old(r._identifier))
+                                                                   and same(r._bundle, old(r._bundle))), "ProvRecord"))
+
+
+# ---------------------------------------------------------------------------------------------- record views used for copying
+@spec
+def StrictSame(v: "Val", w: "Val") -> "bool":
+    # the same value of the same kind (qualified names: the same URI; the prefix is free)
+    return same(v, w) or (is_qn(v) and is_qn(w) and as_qn(v).uri == as_qn(w).uri)
+
+
+@contract("prov.model.ProvRecord.formal_attributes", props=["C09", "C08", "C12"])
+def formal_attributes(self: "ProvRecord") -> "Seq[Tup[Val,Val]]":
+    pure()
+    reveal("NormalPair")
+    requires("nf", NF(self))
+    ensures("members", forall(lambda p: implies(seq_has(result, p), is_qn(p[0]) and is_formal(self, PairU(p))
+                                                and same(p[1], vs_first(qm_get(self._attributes, PairU(p))))), "Tup[Val,Val]"))
+    ensures("every-formal-attribute-listed",
+            forall(lambda u: implies(is_formal(self, u),
+                                     exists_in(result, lambda p: is_qn(p[0]) and PairU(p) == u
+                                               and same(p[1], vs_first(qm_get(self._attributes, u))))), "str"))
+    ensures("normal", implies(FormalSingle(self), AllNormal(result)))
+
+
+@contract("prov.model.ProvRecord.extra_attributes", props=["C09", "C08", "C12"])
+def extra_attributes(self: "ProvRecord") -> "Seq[Tup[Val,Val]]":
+    pure()
+    reveal("NormalPair", "canon_in")
+    requires("nf", NF(self))
+    axiom("a member of a sequence sits at some index", seq_member_index_lemma(self.attributes))
+    ensures("members", forall(lambda p: implies(seq_has(result, p),
+                                                is_qn(p[0]) and not is_formal(self, PairU(p))
+                                                and vs_has(qm_get(self._attributes, PairU(p)), PairC(p))
+                                                and same(vs_rep(qm_get(self._attributes, PairU(p)), PairC(p)), p[1])), "Tup[Val,Val]"))
+    ensures("every-extra-pair-listed",
+            forall(lambda u, c: implies(vs_has(qm_get(self._attributes, u), c) and not is_formal(self, u),
+                                        exists(lambda p: seq_has(result, p) and is_qn(p[0]) and PairU(p) == u and same(PairC(p), c), "Tup[Val,Val]")),
+                   "str", "Val"))
+    ensures("normal", AllNormal(result))
+
+
+@spec
+def FormalSingleAll(r: "ProvRecord") -> "bool":
+    # every formal attribute single-valued, a membership's prov:entity included (what C09 claims: the
+    # multi-entity membership of the PROV-JSON compatibility path is outside)
+    return forall(lambda u: implies(uri_in(u, PROV_ATTRIBUTES), vs_n(qm_get(r._attributes, u)) <= 1), "str")
+
+
+@spec
+def SourceOK(r: "ProvRecord") -> "bool":
+    return allocated(r) and NF(r) and FormalSingleAll(r) and IdOK(r) and r._prov_type is not None
+
+
+@contract("prov.model.ProvBundle.add_record", props=["C09", "C12", "C18"])
+def add_record(self: "ProvBundle", record: "ProvRecord") -> "ProvRecord":
+    requires("bundle", BundleInv(self))
+    requires("source", SourceOK(record))
+    allocates("ProvRecord")
+    modifies(self, "_records", "_id_map")
+    modifies(self._namespaces, "<dict>", "_namespaces", "_uri_map", "_rename_map", "_prefix_renamed_map", "_default")
+    modifies(self._namespaces.parent, "<dict>", "_namespaces", "_uri_map", "_rename_map", "_prefix_renamed_map", "_default")
+    raises(ProvException)
+    raises(ValueError)
+    raises(TypeError)
+    ensures("fresh", not old(allocated(result)) and allocated(result))
+    ensures("appended", same(self._records, seq_concat(old(self._records), seq_unit(result))))
+    ensures("belongs-here", result._bundle is not None and result._bundle == self)
+    # C09: the copy has the same type, the same identifier URI and the same set of (name URI, value) pairs
+    ensures("same-type", same(result._prov_type, record._prov_type))
+    ensures("same-identifier", SameId(result, record))
+    ensures("source-unchanged-early", same(record._attributes, old(record._attributes)))
+    ensures("every-stored-pair-is-passed-on",
+            forall(lambda u, c: implies(old(vs_has(qm_get(record._attributes, u), c)),
+                                        exists_in(old(record.formal_attributes), lambda p: NormalPair(p) and not is_none(p[1]) and PairU(p) == u and same(PairC(p), c))
+                                        or exists_in(old(record.extra_attributes), lambda p: NormalPair(p) and not is_none(p[1]) and PairU(p) == u and same(PairC(p), c))),
+                   "str", "Val"))
+    ensures("attributes-kept", forall(lambda u, c: implies(vs_has(qm_get(record._attributes, u), c),
+                                                           vs_has(qm_get(result._attributes, u), c)), "str", "Val"),
+            using=["every-stored-pair-is-passed-on", "source-unchanged-early"])
+    ensures("formal-pairs-are-stored-pairs",
+            forall_in(old(record.formal_attributes), lambda p: implies(not is_none(p[1]), old(vs_has(qm_get(record._attributes, PairU(p)), PairC(p))))))
+    ensures("extra-pairs-are-stored-pairs",
+            forall_in(old(record.extra_attributes), lambda p: old(vs_has(qm_get(record._attributes, PairU(p)), PairC(p)))))
+    ensures("attributes-not-invented", forall(lambda u, c: implies(vs_has(qm_get(result._attributes, u), c),
+                                                                   vs_has(qm_get(record._attributes, u), c)), "str", "Val"),
+            using=["formal-pairs-are-stored-pairs", "extra-pairs-are-stored-pairs", "source-unchanged-early"])
+    ensures("source-unchanged", same(record._attributes, old(record._attributes)) and same(record._identifier, old(record._identifier))
+            and same(record._bundle, old(record._bundle)))
+    ensures("nf", NF(result) and IdOK(result))
+    ensures("bundle-inv", BundleInv(self))
     ensures("existing-records-untouched", forall(lambda r: implies(old(allocated(r)), same(r._attributes, old(r._attributes))
                                                                    and same(r._identifier, old(r._identifier))
                                                                    and same(r._bundle, old(r._bundle))), "ProvRecord"))
